@@ -497,10 +497,11 @@ def evaluate__ceiling_and_floor_functions(self: XPathFunction, context: ta.Conte
             return arg
 
         assert isinstance(arg, (int, float, decimal.Decimal))
+        cls = int if isinstance(arg, int) else type(arg)  # derived integer types: xs:integer
         if self.symbol == 'floor':
-            return type(arg)(math.floor(arg))
+            return cls(math.floor(arg))
         else:
-            return type(arg)(math.ceil(arg))
+            return cls(math.ceil(arg))
     except TypeError as err:
         if isinstance(context, XPathSchemaContext):
             return []
@@ -529,7 +530,8 @@ def evaluate__round(self: XPathFunction, context: ta.ContextType = None) -> ta.O
         rounding = 'ROUND_HALF_UP' if number > 0 else 'ROUND_HALF_DOWN'
         with decimal.localcontext() as ctx:
             ctx.prec = max(ctx.prec, number.adjusted() + 2)  # keeps all the integer digits
-            return type(arg)(number.quantize(decimal.Decimal('1'), rounding=rounding))
+            cls = int if isinstance(arg, int) else type(arg)  # derived integer types: xs:integer
+            return cls(number.quantize(decimal.Decimal('1'), rounding=rounding))
     except TypeError as err:
         if isinstance(context, XPathSchemaContext):
             return []
